@@ -66,6 +66,7 @@ from vlib.report import Report
 
 PID = "C18"
 QUICK_TWO = 2000
+QUICK_JUMP = 1200
 THOROUGH_MAX = 200000
 CHAIN_MAX = 240          # files per invocation (cmdarg.c: MAXPARAM = 256 arguments)
 CHAIN_LOCALISE = 6       # differing members of one chain whose responsible predecessor is searched
@@ -85,6 +86,8 @@ def opts_argv(o):
         a.append("-Werror")
     if o.get("suppw"):
         a.append("-w")
+    if o.get("throw"):
+        a.append("-Y")
     return a + ["-E"]                 # -E last: <name>.log per file
 
 
@@ -124,12 +127,19 @@ class Hist:
         self.tr = tr
         self.o = {"maxerr": tr["o"]["maxerr"], "werror": tr["o"]["werror"], "suppw": tr["o"]["suppw"],
                   "q": False, "gnu": False, "E": "log"}
+        self.o["throw"] = bool(tr["o"].get("throw"))
         self.names = ["f%d.asm" % (i + 1) for i in range(len(tr["files"]))]
-        self.dialects = [r.choice(drvrender.hist_dialects(f)) for f in tr["files"]]
-        self.texts = []
-        for i, (f, dl) in enumerate(zip(tr["files"], self.dialects)):
-            lines = [ln for ln in f if not (drop and ln["k"] == "flag" and ln["f"] == drop and i < len(tr["files"]) - 1)]
-            self.texts.append(drvrender.render_hist_file(lines, dl, i + 1))
+        self.jump = any(ln["k"] in ("tjmp", "pjmp") for f in tr["files"] for ln in f)
+        if self.jump:
+            # the jump-error family: targets that size operands themselves, the plain C02 rendering
+            self.dialects = [r.choice(drvrender.JUMP_DIALECTS) for f in tr["files"]]
+            self.texts = [drvrender.render_file(f, dl, i + 1) for i, (f, dl) in enumerate(zip(tr["files"], self.dialects))]
+        else:
+            self.dialects = [r.choice(drvrender.hist_dialects(f)) for f in tr["files"]]
+            self.texts = []
+            for i, (f, dl) in enumerate(zip(tr["files"], self.dialects)):
+                lines = [ln for ln in f if not (drop and ln["k"] == "flag" and ln["f"] == drop and i < len(tr["files"]) - 1)]
+                self.texts.append(drvrender.render_hist_file(lines, dl, i + 1))
         self.argv_opts = opts_argv(self.o)
 
     def multi_job(self, events=None):
@@ -192,7 +202,8 @@ def run_histories(rep, bld, trs, tier, execs):
     keys = list(solo_jobs)
     with Phase("generated histories: %d joint runs, %d solo runs" % (len(hs), len(keys))):
         every = 3 if tier == "quick" else 5          # hook traces of every n-th joint run
-        mres = drvrun.run_many(bld, [h.multi_job(events="file,diag,stmt" if i % every == 0 else None)
+        # (no hook traces under -Y: Driver_Trace replays the counters without the discount of jump errors)
+        mres = drvrun.run_many(bld, [h.multi_job(events="file,diag,stmt" if (i % every == 0 and not h.o["throw"]) else None)
                                      for i, h in enumerate(hs)])
         sres = dict(zip(keys, drvrun.run_many(bld, [solo_jobs[k] for k in keys])))
     bad = []
@@ -236,6 +247,8 @@ def run_histories(rep, bld, trs, tier, execs):
         files = dict(zip(h.names, h.texts))
         files["argv"] = " ".join(h.names + h.argv_opts)
         files["stdout.txt"] = m.out[-3000:]
+        if cul == "none" and h.jump and h.o["throw"] and any(ln["k"] in ("tjmp", "pjmp") for f in h.tr["files"][:-1] for ln in f):
+            cul = "jmperrors"           # -Y and a jump error in an earlier file: the class a stale JmpErrors counter affects
         rep.violation("history %s (dialects %s): %s [leaked flag that explains it: %s]"
                       % (" ".join(h.names + h.argv_opts), h.dialects, "; ".join(diffs)[:1500], cul),
                       case=h.tr, files=files, key={"kind": "generated", "culprit": cul})
@@ -565,7 +578,17 @@ def main(tier):
         two = [t for t in trs if not (len(t["files"][0]) == 1 and len(t["files"][-1]) == 1)]
         rng("c18/sample").shuffle(two)
         trs = one + two[:max(0, THOROUGH_MAX - len(one))]
-    rep.part("generation", histories_available=navail, histories_run=len(trs))
+    # histories of the jump-error family (JmpErrors / -Y): from the C02 cover, the two-file runs
+    with Phase("TLC Driver_Gen jump cover"):
+        covj = tlc.must(tlc.run("Driver_Gen", "Driver_Gen_Jump.cfg", workers=1, timeout=1700, mem="8g"), "Driver_Gen(Jump)")
+    rep.model("Driver_Gen(jump cover)", covj)
+    jt = [b for (tag, b) in covj.printed if tag == "TR" and len(b["files"]) >= 2
+          and any(ln["k"] in ("tjmp", "pjmp") for f in b["files"] for ln in f)]
+    if tier == "quick":
+        rng("c18/jump").shuffle(jt)
+        jt = jt[:QUICK_JUMP]
+    trs = trs + jt
+    rep.part("generation", histories_available=navail, histories_run=len(trs), jump_histories=len(jt))
     execs = []
     hs = run_histories(rep, bld, trs, tier, execs)
     tests, groups, solo = run_corpus(rep, bld, tier, execs)
